@@ -174,7 +174,7 @@ _RESULT_NEW = [
     _RESULT_HEAD,
     "inner, is_nullable = _is_optional_type(result_type)",
     "base = _unwrap_annotated(inner)",
-    "if isinstance(base, type) and issubclass(base, ArrowSerializableDataclass):\n    return pa.schema([pa.field('result', pa.binary(), nullable=is_nullable)])",
+    "if isinstance(base, type) and issubclass(base, ArrowSerializableDataclass):\n    return pa.schema([pa.field('result', pa.binary())])",
     "arrow_type = _infer_arrow_type(inner)",
     "return pa.schema([pa.field('result', arrow_type, nullable=is_nullable)])",
 ]
@@ -251,8 +251,11 @@ def check_shapes(repo: Path) -> None:
     wr = _norm(_body(_func(files["wire"], "_write_request")))
     if wr[:2] != ["arrays: list[pa.Array[Any]] = []", "for f in params_schema:\n    val = _convert_for_arrow(kwargs.get(f.name))\n    arrays.append(pa.array([val], type=f.type))"]:
         raise TranslationBroken("_write_request", "per-field conversion changed")
+    # kwargs extraction: in _decode_request (called by _read_request) or, in older trees, in _read_request itself
     rr = _u(_func(files["wire"], "_read_request"))
-    if "kwargs = {f.name: batch.column(i)[0].as_py() for i, f in enumerate(batch.schema)}" not in rr:
+    if "_decode_request(batch, custom_metadata" in rr:
+        rr = _u(_func(files["wire"], "_decode_request"))
+    if "kwargs = {f.name: batch.column(i)[0].as_py() for i, f in enumerate(batch.schema)}" not in rr or "return (method_name, kwargs)" not in rr:
         raise TranslationBroken("_read_request", "kwargs extraction changed")
     ru = _u(_func(files["wire"], "_read_unary_response"))
     for frag in ("value = batch.batch.column('result')[0].as_py()", "_validate_result(info.name, value, info.result_type)", "if value is None:\n            return None", "return _deserialize_value(value, info.result_type, reader.ipc_validation)"):
